@@ -93,6 +93,23 @@ def _run(v, tier, rng, work):
             vectors.append([srcs[s], dsts[d], os.path.join(work, "list.lst")])
             if tier == "thorough" or (s, d) in (("ok", "new"), ("okcoff", "nodir"), ("bad", "existing"), ("missing", "new")):
                 vectors.append([srcs[s], dsts[d], os.path.join(work, "list.lst"), "extra"])
+    # flag tokens do not count as arguments: with one path left the source/output pair is incomplete (exit 16), with two it is complete
+    for flag in ("-d", "--", "-d=false", "-d=true"):
+        rc, so, se = cli([flag, good_src], work)
+        evals += 1
+        if rc != 16:
+            v.violation("missing arguments must exit 16 (flag + one path, got %d)" % rc, {"argv": [flag, good_src], "exit": rc, "stdout": so[:300], "stderr": se[-300:]})
+        if os.path.exists(dsts["new"]):
+            os.remove(dsts["new"])
+        rc, so, se = cli([flag, good_src, dsts["new"]], work)
+        evals += 1
+        got = open(dsts["new"], "rb").read() if os.path.isfile(dsts["new"]) else None
+        if rc != 0 or got != expect_ok:
+            v.violation("successful assembly must exit 0 and write the image (flag + two paths, got %d)" % rc, {"argv": [flag, good_src, dsts["new"]], "exit": rc, "stdout": so[:300], "stderr": se[-300:]})
+    rc, so, se = cli(["-d"], work)
+    evals += 1
+    if rc != 16:
+        v.violation("missing arguments must exit 16 (flag only, got %d)" % rc, {"argv": ["-d"], "exit": rc})
     for args in vectors:
         for f in (dsts["new"],):
             if os.path.exists(f):
